@@ -346,6 +346,8 @@ def judge_regex_case(rec, rnd, tmp):
     """regex: delimiter - lines built so that well-formed ones match by construction; 4th group is optional."""
     optional = rnd.random() < .6
     pat = r'^(\d{2}/\d{2}/\d{4})\s+(.+?)\s+(-?[\d,]+\.\d{2})' + (r'(?:\s+([A-Z]{3}))?$' if optional else r'\s+([A-Z]{3})$')
+    if rnd.random() < .5:
+        pat = pat[1:]          # written without ^: the pattern still describes the LINE (a record starts at the beginning of its line)
     fmt = '{date:%m/%d/%Y}, {description}, {amount}, {code}'
     hdr = rnd.random() < .5
     src = {'name': 'Src', 'file': 'x', 'format': fmt, 'delimiter': 'regex:' + pat, 'has_header': hdr}
@@ -363,7 +365,8 @@ def judge_regex_case(rec, rnd, tmp):
             lines.append(rnd.choice(['', '   ']))
             continue
         if kind == 'nomatch':
-            lines.append(rnd.choice(['TOTAL 12 items', '-- page 2 --', 'Opening balance 100.00']))
+            lines.append(rnd.choice(['TOTAL 12 items', '-- page 2 --', 'Opening balance 100.00', 'Pending: 01/06/2025  HOTEL HOLD  250.00  USD',
+                                     'page 3 of 7   02/11/2025  CARRIED FORWARD   1,000.00  EUR', '* 03/01/2025  NOTE ONLY  5.00  USD']))
             continue
         ds = dt.strftime('%m/%d/%Y') if kind != 'baddate' else '13/45/2025'
         if kind == 'zero':
@@ -436,6 +439,40 @@ def judge_twin_sources(rec, rnd, tmp):
                           {'kind': 'twin', 'sources': [s for s, _, _ in srcs]})
             return
     rec.interesting(['twin', core.digest([s for s, _, _ in srcs])])
+    if rnd.random() < .03:
+        # the same files through `tally up` (settings.yaml lists the sources in this order): every source is still read with ITS OWN settings
+        import yaml
+        from collections import Counter
+        from vt import budget as B
+        root = os.path.join(tmp, 'twincli')
+        shutil.rmtree(root, ignore_errors=True)
+        os.makedirs(os.path.join(root, 'config'))
+        os.makedirs(os.path.join(root, 'data'))
+        ds = []
+        for i, (src, path, exp) in enumerate(srcs):
+            shutil.copy(path, os.path.join(root, 'data', 'twin%d.csv' % i))
+            ds.append(dict(src, name='Src%d' % i, file='data/twin%d.csv' % i))
+        with open(os.path.join(root, 'config', 'settings.yaml'), 'w', encoding='utf-8') as f:
+            yaml.safe_dump({'year': 2025, 'data_sources': ds}, f, allow_unicode=True, sort_keys=False)
+        p = B.tally(root, 'up', os.path.join(root, 'config'), '-q')
+        rec.count('twin_source_sets_through_the_cli')
+        case = {'kind': 'twin', 'sources': [s_ for s_, _, _ in srcs]}
+        try:
+            per = {}
+            for t_ in B.html_transactions(B.html_data(os.path.join(root, 'output', 'spending_summary.html'))):
+                per.setdefault(t_[0], Counter())[round(t_[5], 6)] += 1
+            for i, (src, path, exp) in enumerate(srcs):
+                want = Counter(round(float(e['amount']), 6) for e in exp)
+                if per.get('Src%d' % i, Counter()) != want:
+                    rec.violation('settings-of-another-source-applied:tally-up', f'tally up, source {i} of {len(srcs)} with settings '
+                                  f'{[{k: v for k, v in s_.items() if k in ("delimiter", "has_header", "negate_amount", "decimal_separator")} for s_, _, _ in srcs]}: amounts '
+                                  f'{sorted(per.get("Src%d" % i, Counter()).elements())[:6]} vs expected {sorted(want.elements())[:6]}', case)
+                    break
+        except Exception as e:
+            if any(exp for _, _, exp in srcs):
+                rec.violation('twin-sources-cli-run-fails', f'{type(e).__name__}: {e}; exit {p.returncode} {p.stderr[-200:]!r}', case)
+        finally:
+            shutil.rmtree(root, ignore_errors=True)
 
 
 def run(rec, shard, nshards, t):
